@@ -692,7 +692,8 @@ def rule_r4(prog, res):
             v = n.value
             if isinstance(v, ast.Call) and call_name(v) == 'oset':
                 fresh_vars.add(n.targets[0].id)
-            if isinstance(v, ast.Call) and call_name(v) == 'get' and \
+            if isinstance(v, ast.Call) and call_name(v) in (
+                    'get', 'setdefault') and \
                     len(v.args) == 2 and isinstance(v.args[1], ast.Call) and \
                     call_name(v.args[1]) == 'oset' and \
                     dotted(v.func.value) == 'handlers':
